@@ -18,9 +18,9 @@ CHECKS["C10"] = dict(
     design="§5 C10")
 
 CHECKS["C20"] = dict(
-    technique="TLA+ specs PanLockset/PanSymtab: TLC explores all interleavings of 3 processes (locked variant safe, unlocked variant must violate NoRace); lock/table-access traces recorded from the auto-instrumented real interpreter (start-up goroutines + N concurrent evaluations) are validated against PanLockset by TLC (trace validation)",
-    text="Design-level exhaustive model checking of the RWMutex protocol, and lockset trace validation of real concurrent executions: every table access event must be enabled (lock held) in the specification, independent of whether a race happens in the observed schedule.",
-    note="Trusts TLC, the build-time instrumentation (harness/cmd/hookgen, statement granularity, package-level variables of object/hashtable.go only) and the event order recorded under the tracer's mutex.",
+    technique="TLA+ specs PanLockset/PanSymtab: TLC explores all interleavings of 3 processes (locked variant safe, unlocked variant must violate NoRace); lock/table-access traces recorded from the auto-instrumented real interpreter (start-up goroutines + N concurrent evaluations) are validated against PanLockset by TLC (trace validation); second observation channel: the production build (no hooks) under the Go race detector (barrier rounds, random programs, a real http-module server with concurrent clients), each report of an unsynchronised access pair in the interpreter's packages is an Unsync trace event that PanLockset never enables, and concurrent results must equal the sequential ones",
+    text="Design-level exhaustive model checking of the RWMutex protocol, and lockset trace validation of real concurrent executions: every table access event must be enabled (lock held) in the specification, independent of whether a race happens in the observed schedule. Interpreter-wide state outside object/hashtable.go (other packages, fields of shared objects) is observed by the race detector on schedule-dependent runs.",
+    note="Trusts TLC, the build-time instrumentation (harness/cmd/hookgen, statement granularity, package-level variables of object/hashtable.go only), the event order recorded under the tracer's mutex, and the Go race detector (happens-before; finds only pairs not ordered in the observed run).",
     design="§5 C20")
 
 CHECKS["C18"] = dict(
